@@ -320,11 +320,17 @@ def _run_lines(exe, lines, timeout, label, extra_env=None):
         data = ("\n".join(chunk) + "\n").encode("utf-8")
         try:
             p = subprocess.run([exe], input=data, stdout=subprocess.PIPE, stderr=subprocess.DEVNULL, timeout=timeout, env=e)
-            outs = p.stdout.decode("utf-8", "replace").splitlines()
+            text = p.stdout.decode("utf-8", "replace")
+            outs = text.splitlines()
+            if text and not text.endswith("\n"):
+                outs = outs[:-1]      # a partial last line of a process that died
             status = "ABORT" if p.returncode != 0 else "MISSING"
             sig = f"{status}({p.returncode})"
         except subprocess.TimeoutExpired as te:
-            outs = (te.stdout or b"").decode("utf-8", "replace").splitlines()
+            text = (te.stdout or b"").decode("utf-8", "replace")
+            outs = text.splitlines()
+            if text and not text.endswith("\n"):
+                outs = outs[:-1]
             # the last line may be partial; drop it if it does not end cleanly
             sig = "HANG"
         outs = outs[: len(chunk)]
@@ -375,6 +381,21 @@ def judge_spec(spec, impl):
         return impl.startswith(spec[7:])
     if spec.startswith("oneof "):
         return impl in spec[6:].split(" || ")
+    if spec.startswith("m "):
+        want = spec[2:].split(" ")
+        got = impl.split(" ")
+        if len(got) < len(want):
+            return False
+        for w, g in zip(want, got):
+            if w == "*":
+                continue
+            if "=" in w and w.endswith("=*"):
+                if not g.startswith(w[:-1]):
+                    return False
+                continue
+            if w != g:
+                return False
+        return True
     if spec.startswith("steps "):
         want = spec[6:].split(";")
         got = impl.split(";")
@@ -437,6 +458,29 @@ def write_evidence(ctx, coverage, violations, assumptions):
         json.dump(ev, f, indent=1, ensure_ascii=False)
     os.replace(tmp, p)
     return p
+
+
+def lang_lines(ctx, sources, op="eval"):
+    """Two-phase language engine: the real parser prints the AST of every source text
+    (harness op `parse`); the line sent to the Lean driver carries that AST so the reference
+    semantics needs no parser model.  Sources with parse errors get the AST anyway."""
+    if not ctx.harness:
+        return [f"{op} {s.encode('utf-8').hex()} @@ (prog)" for s in sources]
+    plines = ["parse " + s.encode("utf-8").hex() for s in sources]
+    outs = run_parallel(ctx.harness, plines, timeout=120, label="parse")
+    lines = []
+    for s, o in zip(sources, outs):
+        sx = "(prog)"
+        if o.startswith("ast "):
+            i = o.find("(prog")
+            if i >= 0 and " errs=0 " in o[:i]:
+                sx = o[i:]
+            else:
+                sx = "(perr)"
+        elif o.startswith(("PANIC", "ABORT", "HANG")):
+            sx = "(crash)"
+        lines.append(f"{op} {s.encode('utf-8').hex()} @@ {sx}")
+    return lines
 
 
 TRUSTED_BASE = [
@@ -533,7 +577,8 @@ def _run_check(ctx, mod, replay):
     for c, d, i in zip(cases, douts, iouts):
         c.model, c.spec = split_driver(d)
         if i.startswith("PANIC "):
-            c.extra = {"panic": bytes.fromhex(i[6:]).decode("utf-8", "replace") if all(ch in "0123456789abcdef" for ch in i[6:]) else i[6:]}
+            c.extra = dict(c.extra or {})
+            c.extra["panic"] = bytes.fromhex(i[6:]).decode("utf-8", "replace") if all(ch in "0123456789abcdef" for ch in i[6:]) else i[6:]
         c.impl = canon(i)
         c.model = canon(c.model)
 
@@ -543,6 +588,7 @@ def _run_check(ctx, mod, replay):
     classify = getattr(mod, "classify", lambda c: None)
     model_skip = getattr(mod, "model_skip", lambda c: False)
     disagreements, oracle_fail, known_hits = [], [], {}
+    extra_judge = getattr(mod, "judge", None)
     nontrivial = getattr(mod, "nontrivial", lambda c: not c.impl.startswith(("bad-op", "PANIC", "ABORT", "HANG")))
     seen_nt = set()
     dist = {}
@@ -556,6 +602,8 @@ def _run_check(ctx, mod, replay):
         except ValueError as e:
             ctx.problems.append({"kind": "C", "name": "driver output", "detail": f"{c.line} -> {c.model} ## {c.spec}"})
             ok = True
+        if ok and extra_judge is not None and extra_judge(c) is False:
+            ok = False
         if not ok:
             key = classify(c)
             if key is not None and key in known_keys:
